@@ -6,7 +6,8 @@ EXPLANATION = ("Sibling agreement of the hand-duplicated decoders: Frame::read =
                "wire I/O sequences (same fields, same branch atom, same payload-cap comparator and constant, same error constructor at the same "
                "position); commit-or-drop in the six *_from_buffer wrappers (commit() exactly on the Some path, parent untouched otherwise); EOF "
                "classes (ImmediateFin iff nothing read; non-first fields remap to UnexpectedFin); the eight typestate error mappings are equal "
-               "tables; the four poll loops pass exactly the remaining field slice, advance by the returned count and finish at the field length.")
+               "tables; the four poll loops pass exactly the remaining field slice, advance by the returned count and finish at the field length."
+               ' Also (C15-R6/R7): the async source adapter reports exactly the bytes that arrived; the slice decoder consumes encoded (not minimal) lengths; cursor accessors as in C14.')
 NOT_DECIDED = ["equality of returned values for every input (value-level)", "behaviour of third-party AsyncRead implementations"]
 TRUSTED = ["rustc MIR", "octets::Octets cursor semantics"]
 
